@@ -7,11 +7,12 @@
 (* also checks the specification's own laws on every generated case        *)
 (* (GenInv), so that the oracle itself is exercised before it is trusted.  *)
 (***************************************************************************)
-EXTENDS Universe, Json, TLC
+EXTENDS Universe, JsonText, Json, TLC
 
 CONSTANTS Family,   \* which script family to emit
           Width,    \* container width bound
-          OpSet     \* the operations to emit scripts for
+          OpSet,    \* the operations to emit scripts for
+          RpSet     \* representations to emit for each document argument: 0 binary, 1..3 text spacings
 
 VARIABLES stage, d1, d2, scr
 vars == <<stage, d1, d2, scr>>
@@ -57,25 +58,56 @@ KeyLists(d) ==
 NewVals == {Null, u256, sab, Arr(<<u1, sab>>), Obj(<< <<ka, Null>> >>), Arr(<<>>)}
 Pre == <<7, 7, 7>>
 
+\* strings over every code-point class, in values and in keys, up to three levels down;
+\* every finite number of the boundary set; layouts with empty containers at every level
+CtlStrings == {<<c>> : c \in 0..31} \cup {<<97, c, 98>> : c \in {0, 1, 8, 9, 10, 12, 13, 27, 31}}
+ClassStrings == CtlStrings \cup {<<>>, <<97>>, <<34>>, <<92>>, <<47>>, <<127>>, <<92, 110>>, <<92, 117, 68, 56, 48, 48>>,
+                                 <<195, 169>>, <<226, 128, 168>>, <<226, 128, 169>>, <<240, 159, 152, 128>>, <<239, 191, 189>>,
+                                 <<34, 92, 34>>, <<97, 34, 10, 240, 159, 152, 128, 92>>, <<32>>, <<123, 125>>, <<91, 44, 93>>}
+FiniteNums == {n \in NumSet : IsFiniteNum(n)}
+RenderDocs ==
+  {Str(s) : s \in ClassStrings}
+  \cup {Arr(<<Str(s), Null>>) : s \in ClassStrings}
+  \cup {Obj(<< <<s, Str(s)>> >>) : s \in ClassStrings}
+  \cup {Arr(<<Obj(<< <<s, Arr(<<Str(s), u1>>)>> >>)>>) : s \in ClassStrings}
+  \cup {NumD(n) : n \in FiniteNums} \cup {Arr(<<NumD(n), NumD(n)>>) : n \in FiniteNums}
+  \cup {Obj(<< <<ka, NumD(n)>> >>) : n \in FiniteNums}
+  \cup RepL1 \cup L2(2) \cup {Arr(<<Arr(<<Arr(<<>>)>>)>>), Obj(<< <<ka, Obj(<< <<kb, Obj(<<>>)>> >>)>> >>), Null, True, False}
+
+
 ----------------------------------------------------------------------------
 (* universes per family *)
 Docs1 ==
   CASE Family \in {"codec"} -> AtomsWide \cup L1(AtomsSmall, KeysSmall, ObjValsSmall, Width) \cup L2(2)
     [] Family \in {"acc", "edit"} -> AtomsSmall \cup {sTrue, s12, i1, im1, f1, u2p53p1, umax, imin}
                                        \cup L1(AtomsSmall, KeysSmall, ObjValsSmall, Width) \cup L2(2)
+    [] Family \in {"acc11", "edit11"} -> AtomsSmall \cup {sTrue, s12, im1, f1, fm0, u2p53p1, sE, sSmile, sCtl, sQuote} \cup RepL1
+                                         \cup {Arr(<<u256, Null, f15>>), Arr(<<Arr(<<u1, sab>>), Obj(<< <<ka, Null>> >>)>>),
+                                               Obj(<< <<kB, u1>>, <<ka, Arr(<<sE, f15>>)>> >>), Obj(<< <<kE, Obj(<< <<kab, Null>>, <<kb, sQuote>> >>)>> >>)}
+    [] Family \in {"pairs11"} -> {Null, True, u1, i1, f1, fm0, u0, sab, s12, sE, u2p53p1, f2p53} \cup RepL1
+                                   \cup {Arr(<<u1>>), Arr(<<f1>>), Arr(<<u1, u1, sab>>), Obj(<< <<ka, u1>>, <<kb, Arr(<<f15>>)>> >>), Obj(<< <<ka, f1>> >>)}
+    [] Family \in {"render"} -> RenderDocs
     [] Family \in {"pairs"} -> PairDocs
+    [] Family \in {"pairs2"} -> PairDocs2
     [] Family \in {"num", "numpairs"} -> {NumD(n) : n \in NumSet}
     [] Family \in {"build"} -> {Null, u1, u256, sab, Arr(<<u1, sab>>), Obj(<< <<ka, Null>> >>), Arr(<<>>), Obj(<<>>)}
     [] OTHER -> {Null}
-NeedsSecond == Family \in {"pairs", "numpairs"}
-Docs2 == IF Family = "pairs" THEN PairDocs ELSE IF Family = "numpairs" THEN {NumD(n) : n \in NumSet} ELSE {Nil}
+NeedsSecond == Family \in {"pairs", "pairs2", "numpairs", "pairs11"}
+Docs2 == IF Family = "pairs" THEN PairDocs ELSE IF Family = "pairs11" THEN Docs1 ELSE IF Family = "pairs2" THEN PairDocs2 ELSE IF Family = "numpairs" THEN {NumD(n) : n \in NumSet} ELSE {Nil}
 
 S1(op, d, a) == [op |-> op, d |-> <<d>>, a |-> a]
 S2(op, x, y, a) == [op |-> op, d |-> <<x, y>>, a |-> a]
 NoArg == [z |-> 0]
 
 \* one script line: record it in the state and write it out
-Out(s) == s.op \in OpSet /\ scr' = s /\ PrintT(ToJson(s)) /\ stage' = "script" /\ UNCHANGED <<d1, d2>>
+RpVectors(s) ==
+  IF "d" \notin DOMAIN s \/ RpSet = {0} \/ s.op \in {"to_vec", "roundtrip", "render", "serde"} THEN {<<>>}
+  ELSE {v \in [1..Len(s.d) -> RpSet] : \A i \in 1..Len(s.d) : v[i] # 0 => ~HasNonFinite(s.d[i])}
+WithRp(s, v) == IF v = <<>> THEN s ELSE [rp |-> v, fl |-> FL] @@ s
+Out(s) ==
+  /\ s.op \in OpSet
+  /\ \E v \in RpVectors(s) : scr' = WithRp(s, v) /\ PrintT(ToJson(WithRp(s, v)))
+  /\ stage' = "script" /\ UNCHANGED <<d1, d2>>
 
 EmitCodec(x) ==
   \/ Out(S1("roundtrip", x, NoArg))
@@ -104,6 +136,11 @@ EmitEdit(x) ==
 EmitPairs(x, y) ==
   \/ \E o \in {"compare", "contains", "array_overlap", "comparable2"} : Out(S2(o, x, y, NoArg))
   \/ \E o \in {"concat", "array_intersection", "array_except"} : Out(S2(o, x, y, [pre |-> Pre]))
+
+EmitRender(x) ==
+  \/ Out(S1("render", x, NoArg))
+  \/ Out(S1("serde", x, NoArg))
+  \/ Out(S1("value_display", x, NoArg))
 
 EmitNum(x) ==
   \/ Out([op |-> "num", a |-> [n |-> NumOf(x)]])
@@ -136,9 +173,10 @@ PickSecond ==
 Emit ==
   /\ stage = "docs"
   /\ CASE Family = "codec" -> EmitCodec(d1)
-       [] Family = "acc" -> EmitAcc(d1)
-       [] Family = "edit" -> EmitEdit(d1)
-       [] Family = "pairs" -> EmitPairs(d1, d2)
+       [] Family \in {"acc", "acc11"} -> EmitAcc(d1)
+       [] Family \in {"edit", "edit11"} -> EmitEdit(d1)
+       [] Family \in {"pairs", "pairs2", "pairs11"} -> EmitPairs(d1, d2)
+       [] Family = "render" -> EmitRender(d1)
        [] Family = "num" -> EmitNum(d1)
        [] Family = "numpairs" -> EmitNumPairs(d1, d2)
        [] OTHER -> FALSE
